@@ -440,7 +440,14 @@ func (p *processor) Propagate(event *Event) {
 	verifTrace("p.propagate", uint64(event.Offset), uint64(p.id))
 	nextActionIdx := event.action
 	p.tryResetBusy(nextActionIdx - 1)
-	p.processSequence(event)
+
+	// run the rest of the actions once, like Spawn does for children. Waiting here for the next
+	// event of the stream (processSequence) would take events while the frame that called the
+	// action still has its own event in hand: they would overtake it and be committed out of order.
+	if ok, _ := p.doActions(event); ok {
+		event.stage = eventStageOutput
+		p.router.Out(event)
+	}
 }
 
 func (p *processor) IncMaxEventSizeExceeded(lvs ...string) {
